@@ -641,7 +641,12 @@ def launch_crash_case(case: dict, rng, res: SuiteResult | None = None):
         finally:
             loader.close()
         # a real launch from sampled torn directories, in a fresh process
-        sample = rng.sample(torn_dirs, min(len(torn_dirs), case.get("relaunches", 4)))
+        # (always the emptiest one - killed right after the state directory was created - and the fullest one,
+        # the others at random)
+        torn_dirs.sort(key=lambda kp: kp[0])
+        forced = ([torn_dirs[0]] + ([torn_dirs[-1]] if len(torn_dirs) > 1 else [])) if torn_dirs else []
+        others = [t for t in torn_dirs if t not in forced]
+        sample = forced + rng.sample(others, min(len(others), max(0, case.get("relaunches", 4) - len(forced))))
 
         def relaunch(item):
             k, path = item
